@@ -516,4 +516,387 @@ theorem apply_inv {s : St} (h : Inv s) (env : Env) (op : Op) (hok : OpOk s op) :
   | generate => exact generate_inv h env
   | setComment c => exact h
 
+/-! ### discard: surviving piece hashes imply that nothing they depend on changed -/
+
+/-- nothing the piece hashes depend on (and no filter list) differs between `s` and `s'` -/
+def Same (s s' : St) : Prop :=
+  s'.pieces = s.pieces ∧ s'.path = s.path ∧ s'.content = s.content ∧ s'.pl = s.pl ∧
+  s'.exGlobs = s.exGlobs ∧ s'.inGlobs = s.inGlobs
+
+theorem Same.rfl' (s : St) : Same s s := ⟨rfl, rfl, rfl, rfl, rfl, rfl⟩
+
+theorem checkAndStore_same (s : St) (x : Int) (g : Ghost)
+    (hg : (checkAndStore s x).1.pieces = some g) : Same s (checkAndStore s x).1 := by
+  rcases checkAndStore_cases s x with h1 | ⟨n, _, _, _, _, h1⟩
+  · rw [h1]; exact Same.rfl' s
+  · rw [h1] at hg ⊢
+    unfold stored at hg ⊢
+    by_cases hpl : s.pl = some n
+    · simp only [hpl, ne_eq, not_true_eq_false, if_false]
+      exact ⟨rfl, rfl, rfl, hpl.symm, rfl, rfl⟩
+    · simp only [ne_eq, hpl, not_false_eq_true, if_true] at hg
+      exact absurd hg (by simp)
+
+theorem checkAndStore_none (s : St) (x : Int) (h : s.pieces = none) :
+    (checkAndStore s x).1.pieces = none := by
+  rcases checkAndStore_cases s x with h1 | ⟨n, _, _, _, _, h1⟩
+  · rw [h1]; exact h
+  · rw [h1]; unfold stored; simp only [h, ite_self]
+
+theorem setPieceSize_none (s : St) (v : Option Int) (h : s.pieces = none) :
+    (setPieceSize s v).1.pieces = none := by
+  unfold setPieceSize
+  cases v with
+  | none =>
+    simp only
+    split
+    · exact h
+    · exact checkAndStore_none s _ h
+  | some x => exact checkAndStore_none s x h
+
+theorem setFilesCore_none (env : Env) (s : St) (files : List (Path × Nat)) (bp : Option Path) :
+    (setFilesCore env s files bp).1.pieces = none := by
+  unfold setFilesCore
+  exact setPieceSize_none _ _ rfl
+
+theorem setPieceSize_same {s : St} (h : Inv s) (v : Option Int) (g : Ghost)
+    (hg : (setPieceSize s v).1.pieces = some g) : Same s (setPieceSize s v).1 := by
+  cases v with
+  | some x => exact checkAndStore_same s x g hg
+  | none =>
+    unfold setPieceSize at hg ⊢
+    simp only at hg ⊢
+    split
+    · rename_i hz
+      rw [if_pos hz] at hg
+      have hs := h.2.2.2.2.2.2
+      have hg' : s.pieces = some g := hg
+      unfold StampOk at hs; rw [hg'] at hs
+      have := hs.2.2.2.2
+      omega
+    · rename_i hz
+      rw [if_neg hz] at hg
+      exact checkAndStore_same s _ g hg
+
+theorem setPath_same (env : Env) (s : St) (v : Option Path) (g : Ghost)
+    (hg : (setPath env s v).1.pieces = some g) : Same s (setPath env s v).1 := by
+  cases v with
+  | none => exact absurd hg (by simp [setPath])
+  | some p =>
+    unfold setPath at hg ⊢
+    simp only at hg ⊢
+    split
+    · rename_i h1; rw [if_pos h1, setFilesCore_none] at hg; exact absurd hg (by simp)
+    · rename_i h1
+      rw [if_neg h1] at hg
+      split
+      · rename_i h2; rw [if_pos h2, setFilesCore_none] at hg; exact absurd hg (by simp)
+      · exact Same.rfl' s
+
+theorem setFilesAttr_same (env : Env) (s : St) (fs : List (Path × Nat)) (g : Ghost)
+    (hg : (setFilesAttr env s fs).1.pieces = some g) : Same s (setFilesAttr env s fs).1 := by
+  unfold setFilesAttr at hg ⊢
+  split
+  · exact Same.rfl' s
+  · rename_i h1
+    rw [if_neg h1] at hg
+    split
+    · rename_i h2; rw [if_pos h2, setFilesCore_none] at hg; exact absurd hg (by simp)
+    · rename_i h2
+      rw [if_neg h2] at hg
+      simp only at hg ⊢
+      split
+      · exact Same.rfl' s
+      · rename_i h3; rw [if_neg h3, setFilesCore_none] at hg; exact absurd hg (by simp)
+
+theorem setFilepathsAttr_same (env : Env) (s : St) (ps : List Path) (g : Ghost)
+    (hg : (setFilepathsAttr env s ps).1.pieces = some g) : Same s (setFilepathsAttr env s ps).1 := by
+  unfold setFilepathsAttr at hg ⊢
+  simp only at hg ⊢
+  split
+  · rename_i h1; rw [if_pos h1, setFilesCore_none] at hg; exact absurd hg (by simp)
+  · rename_i h1
+    rw [if_neg h1] at hg
+    split
+    · exact Same.rfl' s
+    · rename_i files hf
+      rw [hf] at hg
+      simp only [setFilesCore_none] at hg
+      exact absurd hg (by simp)
+
+/-- a filter-list edit always re-runs the content setters, which drop the piece hashes
+    (the content path, if any, still exists) -/
+theorem filtersChanged_none (env : Env) (s : St) (hex : ∀ p, s.path = some p → env.exists p = true)
+    (hst : s.path = none → s.pieces = none) : (filtersChanged env s).1.pieces = none := by
+  unfold filtersChanged
+  split
+  · rename_i p hp
+    have he := hex p hp
+    unfold setPath
+    simp only
+    unfold Env.exists at he
+    simp only [Bool.or_eq_true] at he
+    split
+    · exact setFilesCore_none ..
+    · rename_i h1
+      split
+      · exact setFilesCore_none ..
+      · rename_i h2
+        rcases he with he | he
+        · exact absurd he h1
+        · exact absurd he h2
+  · rename_i hp
+    have hn := hst hp
+    cases hq : (setFilesAttr env s (filesOf s)).1.pieces with
+    | none => rfl
+    | some g =>
+      have := (setFilesAttr_same env s _ g hq).1
+      rw [hq, hn] at this
+      exact absurd this (by simp)
+
+theorem setMin_cases (s : St) (x : Int) :
+    (setMin s (some x)).1 = s ∨ (setMin s (some x)).1 = { s with pmin := x.toNat } ∨
+    ∃ y, (setMin s (some x)).1 = (checkAndStore { s with pmin := x.toNat } y).1 := by
+  unfold setMin
+  simp only
+  split
+  · left; rfl
+  · split
+    · split
+      · right; right; exact ⟨_, rfl⟩
+      · right; left; rfl
+    · right; left; rfl
+
+theorem setMax_cases (s : St) (x : Int) :
+    (setMax s (some x)).1 = s ∨ (setMax s (some x)).1 = { s with pmax := x.toNat } ∨
+    ∃ y, (setMax s (some x)).1 = (checkAndStore { s with pmax := x.toNat } y).1 := by
+  unfold setMax
+  simp only
+  split
+  · left; rfl
+  · split
+    · split
+      · right; right; exact ⟨_, rfl⟩
+      · right; left; rfl
+    · right; left; rfl
+
+theorem setMin_same {s : St} (v : Option Int) (g : Ghost)
+    (hg : (setMin s v).1.pieces = some g) : Same s (setMin s v).1 := by
+  cases v with
+  | none => exact ⟨rfl, rfl, rfl, rfl, rfl, rfl⟩
+  | some x =>
+    rcases setMin_cases s x with e | e | ⟨y, e⟩
+    · rw [e]; exact Same.rfl' s
+    · rw [e]; exact ⟨rfl, rfl, rfl, rfl, rfl, rfl⟩
+    · rw [e] at hg ⊢
+      exact checkAndStore_same { s with pmin := x.toNat } y g hg
+
+theorem setMax_same {s : St} (v : Option Int) (g : Ghost)
+    (hg : (setMax s v).1.pieces = some g) : Same s (setMax s v).1 := by
+  cases v with
+  | none => exact ⟨rfl, rfl, rfl, rfl, rfl, rfl⟩
+  | some x =>
+    rcases setMax_cases s x with e | e | ⟨y, e⟩
+    · rw [e]; exact Same.rfl' s
+    · rw [e]; exact ⟨rfl, rfl, rfl, rfl, rfl, rfl⟩
+    · rw [e] at hg ⊢
+      exact checkAndStore_same { s with pmax := x.toNat } y g hg
+
+theorem putGlobs_path (s : St) (inc : Bool) (gs : List Glob) :
+    (putGlobs s inc gs).path = s.path ∧ (putGlobs s inc gs).pieces = s.pieces := by
+  unfold putGlobs; split <;> exact ⟨rfl, rfl⟩
+
+theorem glob_none {s : St} (h : Inv s) (env : Env) (hex : ∀ p, s.path = some p → env.exists p = true)
+    (inc : Bool) (gs : List Glob) : (filtersChanged env (putGlobs s inc gs)).1.pieces = none := by
+  obtain ⟨e1, e2⟩ := putGlobs_path s inc gs
+  apply filtersChanged_none
+  · intro p hp; rw [e1] at hp; exact hex p hp
+  · intro hp
+    rw [e1] at hp; rw [e2]
+    have hs := h.2.2.2.2.2.2
+    unfold StampOk at hs
+    cases hq : s.pieces with
+    | none => rfl
+    | some g => rw [hq] at hs; rw [hs.1] at hp; exact absurd hp (by simp)
+
+/-- **Discard.** If piece hashes are present after an operation other than `generate`, then they
+    are the ones that were present before, and the operation changed neither the content path,
+    the listed files and sizes, the piece length, nor a filter list. -/
+theorem apply_same {s : St} (h : Inv s) (env : Env) (hex : ∀ p, s.path = some p → env.exists p = true)
+    (op : Op) (hop : op ≠ .generate) (g : Ghost) (hg : (apply env s op).1.pieces = some g) :
+    Same s (apply env s op).1 := by
+  cases op with
+  | setPath p => exact setPath_same env s p g hg
+  | setFiles fs => exact setFilesAttr_same env s fs g hg
+  | filesDel i =>
+    simp only [apply] at hg ⊢; split
+    · exact Same.rfl' s
+    · rename_i h1; rw [if_neg h1] at hg; exact setFilesAttr_same env s _ g hg
+  | filesAppend f => exact setFilesAttr_same env s _ g hg
+  | filesClear => exact setFilesAttr_same env s _ g hg
+  | setFilepaths ps => exact setFilepathsAttr_same env s ps g hg
+  | fpDel i =>
+    simp only [apply] at hg ⊢; split
+    · exact Same.rfl' s
+    · rename_i h1; rw [if_neg h1] at hg; exact setFilepathsAttr_same env s _ g hg
+  | fpAppend p => exact setFilepathsAttr_same env s _ g hg
+  | fpClear => exact setFilepathsAttr_same env s _ g hg
+  | globSet inc gs =>
+    have := glob_none h env hex inc gs
+    simp only [apply] at hg; rw [this] at hg; exact absurd hg (by simp)
+  | globAppend inc g' =>
+    simp only [apply] at hg; rw [glob_none h env hex] at hg; exact absurd hg (by simp)
+  | globDel inc i =>
+    simp only [apply] at hg ⊢; split
+    · exact Same.rfl' s
+    · rename_i h1; rw [if_neg h1, glob_none h env hex] at hg; exact absurd hg (by simp)
+  | globClear inc =>
+    simp only [apply] at hg; rw [glob_none h env hex] at hg; exact absurd hg (by simp)
+  | setName n =>
+    simp only [apply, setName]; split <;> exact ⟨rfl, rfl, rfl, rfl, rfl, rfl⟩
+  | setPieceSize v => exact setPieceSize_same h v g hg
+  | setMin v => exact setMin_same v g hg
+  | setMax v => exact setMax_same v g hg
+  | generate => exact absurd rfl hop
+  | setComment c => exact ⟨rfl, rfl, rfl, rfl, rfl, rfl⟩
+
+/-! ### the content path, when set, exists in the (unchanging) file system -/
+
+def PathEx (env : Env) (s : St) : Prop := ∀ p, s.path = some p → env.exists p = true
+
+theorem checkAndStore_path (s : St) (x : Int) : (checkAndStore s x).1.path = s.path := by
+  rcases checkAndStore_cases s x with h1 | ⟨n, _, _, _, _, h1⟩ <;> rw [h1] <;> rfl
+
+theorem setPieceSize_path (s : St) (v : Option Int) : (setPieceSize s v).1.path = s.path := by
+  unfold setPieceSize
+  cases v with
+  | none => simp only; split
+            · rfl
+            · exact checkAndStore_path ..
+  | some x => exact checkAndStore_path ..
+
+theorem setFilesCore_pathEx (env : Env) (s : St) (files : List (Path × Nat)) (bp : Option Path) :
+    PathEx env (setFilesCore env s files bp).1 := by
+  intro p hp
+  unfold setFilesCore at hp
+  simp only [setPieceSize_path] at hp
+  split at hp
+  · rename_i hc
+    simp only [Bool.and_eq_true] at hc
+    cases bp with
+    | none => simp at hp
+    | some q =>
+      simp only [Option.some.injEq] at hp
+      subst hp
+      simpa using hc.2
+  · simp at hp
+
+theorem setPath_pathEx {env : Env} {s : St} (h : PathEx env s) (v : Option Path) :
+    PathEx env (setPath env s v).1 := by
+  cases v with
+  | none => intro p hp; simp [setPath] at hp
+  | some q =>
+    unfold setPath; simp only
+    split
+    · exact setFilesCore_pathEx _ _ _ _
+    · split
+      · exact setFilesCore_pathEx _ _ _ _
+      · exact h
+
+theorem setFilesAttr_pathEx {env : Env} {s : St} (h : PathEx env s) (fs : List (Path × Nat)) :
+    PathEx env (setFilesAttr env s fs).1 := by
+  unfold setFilesAttr
+  split
+  · exact h
+  · split
+    · exact setFilesCore_pathEx _ _ _ _
+    · simp only
+      split
+      · exact h
+      · exact setFilesCore_pathEx _ _ _ _
+
+theorem setFilepathsAttr_pathEx {env : Env} {s : St} (h : PathEx env s) (ps : List Path) :
+    PathEx env (setFilepathsAttr env s ps).1 := by
+  unfold setFilepathsAttr
+  simp only
+  split
+  · exact setFilesCore_pathEx _ _ _ _
+  · split
+    · exact h
+    · exact setFilesCore_pathEx _ _ _ _
+
+theorem filtersChanged_pathEx {env : Env} {s : St} (h : PathEx env s) :
+    PathEx env (filtersChanged env s).1 := by
+  unfold filtersChanged
+  split
+  · exact setPath_pathEx h _
+  · exact setFilesAttr_pathEx h _
+
+theorem putGlobs_pathEx {env : Env} {s : St} (h : PathEx env s) (inc : Bool) (gs : List Glob) :
+    PathEx env (putGlobs s inc gs) := by
+  unfold putGlobs; split <;> exact h
+
+theorem generate_path (env : Env) (s : St) : (generate env s).1.path = s.path := by
+  unfold generate
+  split
+  · rfl
+  · split
+    · rfl
+    · split
+      · rfl
+      · split <;> rfl
+
+theorem apply_pathEx {env : Env} {s : St} (h : PathEx env s) (op : Op) :
+    PathEx env (apply env s op).1 := by
+  cases op with
+  | setPath p => exact setPath_pathEx h p
+  | setFiles fs => exact setFilesAttr_pathEx h fs
+  | filesDel i =>
+    simp only [apply]; split
+    · exact h
+    · exact setFilesAttr_pathEx h _
+  | filesAppend f => exact setFilesAttr_pathEx h _
+  | filesClear => exact setFilesAttr_pathEx h _
+  | setFilepaths ps => exact setFilepathsAttr_pathEx h ps
+  | fpDel i =>
+    simp only [apply]; split
+    · exact h
+    · exact setFilepathsAttr_pathEx h _
+  | fpAppend p => exact setFilepathsAttr_pathEx h _
+  | fpClear => exact setFilepathsAttr_pathEx h _
+  | globSet inc gs => exact filtersChanged_pathEx (putGlobs_pathEx h inc gs)
+  | globAppend inc g => exact filtersChanged_pathEx (putGlobs_pathEx h inc _)
+  | globDel inc i =>
+    simp only [apply]; split
+    · exact h
+    · exact filtersChanged_pathEx (putGlobs_pathEx h inc _)
+  | globClear inc => exact filtersChanged_pathEx (putGlobs_pathEx h inc _)
+  | setName n =>
+    simp only [apply, setName]; split <;> exact h
+  | setPieceSize v =>
+    intro p hp; simp only [apply, setPieceSize_path] at hp; exact h p hp
+  | setMin v =>
+    intro p hp
+    cases v with
+    | none => exact h p hp
+    | some x =>
+      simp only [apply] at hp
+      rcases setMin_cases s x with e | e | ⟨y, e⟩ <;> rw [e] at hp
+      · exact h p hp
+      · exact h p hp
+      · rw [checkAndStore_path] at hp; exact h p hp
+  | setMax v =>
+    intro p hp
+    cases v with
+    | none => exact h p hp
+    | some x =>
+      simp only [apply] at hp
+      rcases setMax_cases s x with e | e | ⟨y, e⟩ <;> rw [e] at hp
+      · exact h p hp
+      · exact h p hp
+      · rw [checkAndStore_path] at hp; exact h p hp
+  | generate =>
+    intro p hp; simp only [apply, generate_path] at hp; exact h p hp
+  | setComment c => exact h
+
 end Torf.Attrs
